@@ -80,6 +80,36 @@ m("c06_parseprog_kwargs", "C06", r"C06\.PARSEPROG:.*parse_component_attributes",
                         expect_token!(self, Token::RightBrace, "}")?;
                         attrs.push(MapEntry::Spread(expr));
                     }""")
+m("c06_errkind_message", "C06", r"C06\.ERRKIND:.*parse_array:Error::message", "parser raises a plain message error",
+  "tera/src/parsing/parser.rs", """            return Err(Error::syntax_error(
+                format!("Arrays can have a maximum of {MAX_DIMENSION_ARRAY} dimensions."),
+                &span,
+            ));""", """            return Err(Error::message(format!(
+                "Arrays can have a maximum of {MAX_DIMENSION_ARRAY} dimensions."
+            )));""")
+m("c06_delim_unvalidated", "C06", r"C06\.DELIM:writer:tera::Tera::set_delimiters", "delimiters stored before validation",
+  "tera/src/tera.rs", """        delimiters.validate()?;
+        self.delimiters = delimiters;
+        Ok(())""", """        self.delimiters = delimiters;
+        self.delimiters.validate()?;
+        Ok(())""")
+m("c06_patch_forgotten", "C06", r"C06\.PATCH:.*compile_expr:PopJumpIfFalse", "list-comprehension condition jump never patched",
+  "tera/src/parsing/compiler.rs", """                if let Some(idx) = cond_skip_idx {
+                    let jump_back_target = self.chunk.len();
+                    if let Some((Instruction::PopJumpIfFalse(t), _)) = self.chunk.get_mut(idx) {
+                        *t = jump_back_target;
+                    } else {
+                        unreachable!();
+                    }
+                }""", """                let _ = cond_skip_idx;""")
+m("c06_jt_offbyone", "C06", r"C06\.JT:.*compile_node:patch", "loop end target computed arithmetically",
+  "tera/src/parsing/compiler.rs", """                        if let Some((Instruction::Iterate(jump_target), _)) =
+                            self.chunk.get_mut(start_idx)
+                        {
+                            *jump_target = loop_end;""", """                        if let Some((Instruction::Iterate(jump_target), _)) =
+                            self.chunk.get_mut(start_idx)
+                        {
+                            *jump_target = loop_end + has_else as usize;""")
 # ---------------------------------------------------------------- C07
 m("c07_ref_a_setblock", "C07", r"C07\.REF\.a:.*compile_node:ApplyFilter", "drop the filter_calls record in the set-block filter chain",
   "tera/src/parsing/compiler.rs", """                        self.compile_kwargs(filter.kwargs);
